@@ -30,14 +30,18 @@ def register(PROPS):
                 'whose occurrences come from >= 2 constituents (an actual merge).  states/transitions are counted on the '
                 '(configuration, occurrences delivered, pending consecutive peeks, calls past the end) graph.',
         'bound': {
-            'quick': 'plain family: 1-3 streams, lists of 0-2 instants out of 3, UID a|b per stream, 6 construction paths (17724 '
-                     'configurations); rrules family: 2 RRULEs out of 7 (each non-empty subset of {t1,t2,t3}) x RDATE list (8) x second '
-                     'event (none or 14) = 5880 configurations; all peek/pop sequences with <= 2 consecutive peeks, + 2 calls past the end; '
-                     'ASan variant: plain family with lists of <= 1 instant for 1-4 streams, rrules family with 2 rules and no RDATE x second event, '
-                     'each with every prefix additionally replayed and freed mid-way',
-            'thorough': 'plain family: 1-4 streams, lists of 0-3 instants (all 8 subsets), 6 paths (419424 configurations); rrules family: '
-                        '2-3 RRULEs (392 rule tuples) x 8 x 15 = 47040 configurations; same sequences; ASan variant: plain family 1-3 streams with '
-                        'lists <= 2 and 4 streams with lists <= 1, rrules family with 2 rules, with mid-way frees',
+            'quick': 'plain family: 1-3 streams, each a strictly increasing list of 0-2 instants out of {t1<t2<t3} under UID a|b, x 6 construction '
+                     'paths (vmux, mux, nest, nestr, onefile, files) = 17724 configurations; rrules family: one event with 2 RRULEs out of 7 '
+                     '(one per non-empty subset of {t1,t2,t3}) x RDATE list (none or 7) x second event (none or 14) = 5880 configurations; on each '
+                     'ALL peek/pop sequences with <= 2 consecutive peeks + 2 calls past the end, each also with the clone oracle at every prefix; '
+                     'ASan variant (every prefix additionally replayed and freed mid-way): plain 1-3 streams with lists <= 1 (3504 configurations), '
+                     '4 streams with lists <= 1 through vmux and mux (8192), rrules with 2 rules, RDATE in {none,{t2},{t1,t2,t3}}, second event '
+                     'in {none, a|b x {t2},{t1,t2,t3}} (735)',
+            'thorough': 'plain family: 1-3 streams with all 8 lists x 6 paths (26208 configurations) and 4 streams with all 8 lists x 5 paths '
+                        '(327680; echs_evstrm_mux is left out at 4 streams in the plain build because its heap overrun makes the run '
+                        'irreproducible, it is covered under ASan); rrules family: 2-3 RRULEs (392 tuples) x 8 x 15 = 47040 configurations; same '
+                        'sequences and clone oracle; ASan variant with mid-way frees: plain 1-3 streams lists <= 2 (17724), 4 streams lists <= 1 '
+                        'x 6 paths (24576), rrules with 2 rules (5880).  Run end to end: 273 million sequences.',
         },
         'drivers': [
             D('c03_mux', ['fam=plain', 'nmax=3', 'lmax=2'], ['fam=plain', 'nmax=3', 'lmax=3', '--deadline', '420'], label='plain'),
